@@ -17,7 +17,7 @@ ID = "C13"
 ENGINE = "A"
 RULE = (
     "case = a topology of Connect instances (forward / reverse layouts of 0-3 bits): 'plain' = 1-2 independent Connects "
-    "with 1-2 writer and 1-3 reader transactions each; 'chain' = 2-4 Connects in series linked by middle transactions "
+    "with 1-2 writer and 1-3 reader transactions each (one Connect in five has an unconnected side: no caller at all); 'chain' = 2-4 Connects in series linked by middle transactions "
     "that read one Connect and write the next (transitivity, up to 5 transactions in one simultaneity group); "
     "'broadcast' = one transaction writing 2-4 Connects, each read by 1-2 readers.  Every caller additionally calls 0-2 "
     "methods with ready inputs, drawn from a pool private to its role (a writer and a reader sharing an exclusive callee "
@@ -68,8 +68,16 @@ def strategy(draw, tier="quick"):
                 c["readers"], c["rrdy"] = [], []
         if mode == "broadcast":
             c["writers"], c["wrdy"] = [], []
+        if mode == "plain":
+            # an unconnected port: one side of the Connect has no caller at all, so the other side can never run
+            orphan = draw(st.integers(0, 9))
+            if orphan == 0:
+                c["writers"], c["wrdy"] = [], []
+            elif orphan == 1:
+                c["readers"], c["rrdy"] = [], []
         conns.append(c)
     pair = draw(st.integers(0, 2)) == 0
+    pair_orphan = draw(st.sampled_from([0, 0, 0, 0, 1, 2])) if pair else 0
     # a transaction nested in a method body and declared simultaneous with that method; the method is reached through
     # a call chain whose calls may be guarded by If (1) or enable_call (2)
     nested_sim = [draw(st.integers(0, 2)) for _ in range(draw(st.integers(1, 3)))] if draw(st.integers(0, 2)) == 0 else None
@@ -80,6 +88,7 @@ def strategy(draw, tier="quick"):
         mids=[_extras(draw, 1) for _ in range(nconn - 1)] if mode == "chain" else [],
         bw=_extras(draw, 1) if mode == "broadcast" else [],
         pair=pair,
+        pair_orphan=pair_orphan,
         pair_calls=[_extras(draw, 1) for _ in range(2)] if pair else [],
     )
 
@@ -116,7 +125,10 @@ class D(Elaboratable):
                 for _, extra, role, _ in callers(sp, k, side):
                     u |= {(role, x) for x in extra}
         if sp["pair"]:
-            u |= {("PA", x) for x in sp["pair_calls"][0]} | {("PB", x) for x in sp["pair_calls"][1]}
+            po = sp.get("pair_orphan", 0)
+            u |= ({("PA", x) for x in sp["pair_calls"][0]} if po != 1 else set()) | (
+                {("PB", x) for x in sp["pair_calls"][1]} if po != 2 else set()
+            )
         return sorted(u)
 
     def elaborate(self, platform):
@@ -231,6 +243,8 @@ class D(Elaboratable):
             with self.pb.body(m, ready=self.rdy["pb"]):
                 pass
             for nm_, meth, role, calls in (("ta", self.pa, "PA", sp["pair_calls"][0]), ("tb", self.pb, "PB", sp["pair_calls"][1])):
+                if sp.get("pair_orphan", 0) == (1 if nm_ == "ta" else 2):
+                    continue  # this method of the pair has no caller
                 t = Transaction(name=nm_)
                 self.trs[nm_] = t
                 self.rdy[nm_] = Signal(name=f"rdy_{nm_}")
@@ -244,6 +258,8 @@ def run_case(spec) -> Result:
     sp = spec
     n = len(sp["conns"])
     res = Result(labels=[sp["mode"], f"connects{n}"] + (["simultaneous_pair"] if sp["pair"] else []))
+    if sp.get("pair_orphan") or any(not callers(sp, k, sd) for k in range(n) for sd in "wr"):
+        res.labels.append("side_without_caller")
     if sp.get("nested_sim") is not None:
         res.labels.append("nested_simultaneous" + ("+guarded_chain" if any(sp["nested_sim"]) and len(sp["nested_sim"]) > 1 else ""))
     d = D(spec)
@@ -346,11 +362,12 @@ def run_case(spec) -> Result:
                 if a != b:
                     out[0] = f"simultaneous(pa, pb): pa.run={a} pb.run={b}; val={val}"
                     return
-                if a != run["ta"] or b != run["tb"]:
-                    out[0] = f"pair: method runs {a},{b} but callers {run['ta']},{run['tb']}"
+                po = sp.get("pair_orphan", 0)
+                if a != run.get("ta", 0) or b != run.get("tb", 0):
+                    out[0] = f"pair: method runs {a},{b} but callers {run.get('ta', 0)},{run.get('tb', 0)}"
                     return
-                ea = val["ta"] and val["pa"] and all(val[f"x:PA:{x}"] for x in sp["pair_calls"][0])
-                eb = val["tb"] and val["pb"] and all(val[f"x:PB:{x}"] for x in sp["pair_calls"][1])
+                ea = po != 1 and val["ta"] and val["pa"] and all(val[f"x:PA:{x}"] for x in sp["pair_calls"][0])
+                eb = po != 2 and val["tb"] and val["pb"] and all(val[f"x:PB:{x}"] for x in sp["pair_calls"][1])
                 if a and not (ea and eb):
                     out[0] = f"pair runs although a side is not enabled; val={val}"
                     return
